@@ -23,9 +23,10 @@ Advance  == \E cmd \in AdvanceCmds : Apply(cmd)
 HandleOp == \E cmd \in HandleCmds  : Apply(cmd)
 Erase    == \E cmd \in EraseCmds   : Apply(cmd)
 Bg       == \E cmd \in BgCmds      : Apply(cmd)
+Task     == \E cmd \in TaskCmds    : Apply(cmd)
 Quiesce  == Apply(QuiesceCmd)
 
-Next == Spawn \/ Start \/ PollC \/ Burst \/ Nest \/ Advance \/ HandleOp \/ Erase \/ Bg \/ Quiesce
+Next == Spawn \/ Start \/ PollC \/ Burst \/ Nest \/ Advance \/ HandleOp \/ Erase \/ Bg \/ Task \/ Quiesce
 Spec == Init /\ [][Next]_vars
 
 C01 == InvC01(mon)
